@@ -1,7 +1,7 @@
 (* The case language interpreter: one case (an s-expression) in, one canonical result line out.
    The same function is evaluated in-kernel (vm_compute) and extracted to OCaml. *)
 From Coq Require Import Strings.String.
-From Iso Require Import Model.Base Model.Sexp Model.Padding Model.Encoding Model.Prefix Model.Network Model.Bitmap Model.Spec Model.Field Model.Message Model.Json Model.MessageOps Model.Describe Model.SpecJson Model.Marshal Model.Terms.
+From Iso Require Import Model.Base Model.Sexp Model.Padding Model.Encoding Model.Prefix Model.Network Model.Bitmap Model.Spec Model.Field Model.Message Model.Json Model.MessageOps Model.Describe Model.SpecJson Model.Marshal Model.Track Model.Terms.
 
 Definition S' (s : string) : bytes := list_byte_of_string s.
 
@@ -447,6 +447,73 @@ Definition run_marshal (args : list sexp) : bytes :=
   | _ => bad
   end.
 
+(* ---- a track field object: (trk <1|2|3> <pspec> (op...)) ---- *)
+Definition show_track (t : tstate) : bytes :=
+  S' "(t " ++ (if tk_fixed t then S' "1" else S' "0") ++ sp ++ show_hex (tk_fc t) ++ sp ++ show_hex (tk_pan t) ++ sp ++ show_hex (tk_sep t) ++ sp ++
+  show_hex (tk_name t) ++ sp ++ (match tk_exp t with Some e => show_hex e | None => S' "-" end) ++ sp ++ show_hex (tk_svc t) ++ sp ++ show_hex (tk_dd t) ++ S' ")".
+
+Definition trk_op (k : tkind) (p : pspec) (acc : outcome (tstate * list bytes)) (op : sexp) : outcome (tstate * list bytes) :=
+  do (t, out) <- acc;
+  match op with
+  | SList [Atom name; fx; fc; pan; sep; nm; ex; svc; dd] =>
+      if bytes_eqb name (S' "setc") then
+        match as_bool fx, as_hex fc, as_hex pan, as_hex sep, as_hex nm, as_hex svc, as_hex dd with
+        | Some bfx, Some vfc, Some vpan, Some vsep, Some vnm, Some vsvc, Some vdd =>
+            let e := if atom_is ex (S' "-") then Some None else option_map Some (as_hex ex) in
+            match e with
+            | Some ve => Ok ({| tk_fixed := bfx; tk_fc := vfc; tk_pan := vpan; tk_sep := vsep; tk_name := vnm; tk_exp := ve; tk_svc := vsvc; tk_dd := vdd |}, S' "ok" :: out)
+            | None => Err bad
+            end
+        | _, _, _, _, _, _, _ => Err bad
+        end
+      else Err bad
+  | SList [Atom name; arg] =>
+      if bytes_eqb name (S' "unpack") then
+        match as_hex arg with
+        | Some d => match t_unpack k p t d with
+                    | (_, Panic q) => Panic q
+                    | (_, OutOfFuel) => OutOfFuel
+                    | (t', r) => Ok (t', show_outcome show_int r :: out)
+                    end
+        | None => Err bad
+        end
+      else if bytes_eqb name (S' "setbytes") then
+        match as_hex arg with
+        | Some d => match t_setbytes k t d with
+                    | (_, Panic q) => Panic q
+                    | (_, OutOfFuel) => OutOfFuel
+                    | (t', r) => Ok (t', show_outcome (fun _ => []) r :: out)
+                    end
+        | None => Err bad
+        end
+      else Err bad
+  | SList [Atom name] =>
+      if bytes_eqb name (S' "pack") then
+        match t_pack k p t with
+        | Panic q => Panic q
+        | OutOfFuel => OutOfFuel
+        | r => Ok (t, show_outcome show_hex r :: out)
+        end
+      else if bytes_eqb name (S' "get") then Ok (t, show_track t :: out)
+      else if bytes_eqb name (S' "str") then Ok (t, show_hex (t_render k t) :: out)
+      else if bytes_eqb name (S' "filter") then Ok (t, show_hex (t_filter k p (t_render k t) t) :: out)
+      else if bytes_eqb name (S' "reset") then Ok (t_empty, S' "ok" :: out)
+      else Err bad
+  | _ => Err bad
+  end.
+
+Definition run_trk (args : list sexp) : bytes :=
+  match args with
+  | [kd; SList (_ :: pargs); SList ops] =>
+      match as_int kd, parse_pspec_args pargs with
+      | Some kz, Some p =>
+          let k := if kz =? 1 then T1 else if kz =? 2 then T2 else T3 in
+          finish (fold_left (trk_op k p) ops (Ok (t_empty, [])))
+      | _, _ => bad
+      end
+  | _ => bad
+  end.
+
 Definition dispatch (s : sexp) : bytes :=
   match s with
   | SList (Atom name :: args) =>
@@ -458,6 +525,7 @@ Definition dispatch (s : sexp) : bytes :=
       else if bytes_eqb name (S' "pref.dec") then run_pref_dec args
       else if bytes_eqb name (S' "bm") then run_bm args
       else if bytes_eqb name (S' "marshal") then run_marshal args
+      else if bytes_eqb name (S' "trk") then run_trk args
       else if bytes_eqb name (S' "specjson.export") then run_specjson_export args
       else if bytes_eqb name (S' "specjson.import") then run_specjson_import args
       else if bytes_eqb name (S' "desc.pan") then run_desc 4 args
